@@ -66,6 +66,34 @@ def run(rep: Report, repo: Repo):
         for j in jumps:
             rep.violate('C16.presence', mod, cp, j, f'm == {m}: `{norm(j)}` inside the per-op loop leaves the iteration before the callback is invoked: the signals evaluated on that '
                         f'path are never shown to the callback and cannot be overwritten', node=j)
+        # the callback sees (and overwrites) the final value: nothing in the iteration writes the output location after the call
+        if calls:
+            cs = calls[0]
+            top = cs
+            while getattr(top, '_parent', None) is not None and top._parent is not d.loop:
+                top = top._parent
+            after = d.loop.body[d.loop.body.index(top) + 1:] if top in d.loop.body else []
+            late = []
+            for st in after:
+                for n in ast.walk(st):
+                    tgt = None
+                    if isinstance(n, ast.Call) and n.args and isinstance(n.args[0], ast.Subscript) and attr_chain(n.args[0].value) == 'self.c' and not is_name(n.func, cb):
+                        tgt = n.args[0]
+                    elif isinstance(n, ast.Call) and any(k.arg == 'out' and isinstance(k.value, ast.Subscript) and attr_chain(k.value.value) == 'self.c' for k in n.keywords):
+                        tgt = next(k.value for k in n.keywords if k.arg == 'out')
+                    elif isinstance(n, (ast.Assign, ast.AugAssign)):
+                        for t in (n.targets if isinstance(n, ast.Assign) else [n.target]):
+                            b = t
+                            while isinstance(b, ast.Subscript) and attr_chain(b.value) != 'self.c':
+                                b = b.value
+                            if isinstance(b, ast.Subscript) and attr_chain(b.value) == 'self.c':
+                                tgt = b
+                    if tgt is not None and any(isinstance(x, ast.Name) and x.id in (d.loc_out, d.outvar) for x in ast.walk(tgt.slice)):
+                        late.append((st, n))
+            rep.ob('C16.view', f'm={m}: nothing writes the output location after the callback', not late)
+            for st, n in late[:1]:
+                rep.violate('C16.view', mod, cp, f'[m=={m}] {norm(st)[:90]}', f'm == {m}: `{norm(n)[:80]}` changes the output signal after the callback has been called: the callback does not see the value '
+                            f'downstream gates read, and a value it writes is modified afterwards', node=st)
         if not calls:
             rep.violate('C16.presence', mod, cp, f'm == {m}: no {cb}(...) call in the per-op loop', f'm == {m}: the callback is never invoked in this logic', node=d.loop)
             continue
